@@ -84,6 +84,8 @@ fn update_stages_blocks(
             _ => (),
         }
     }
+    #[cfg(feature = "verif-hooks")]
+    crate::verif::point("walk:block");
 }
 
 fn update_stages(
